@@ -171,10 +171,16 @@ func (st *State) exec(fr *Frame, in ssa.Instruction) bool {
 		fr.env[x] = st.convert(st.val(fr, x.X), x.Type(), x.Pos())
 	case *ssa.ChangeType:
 		v := st.val(fr, x.X)
+		if len(v.C) == 1 && len(st.e.flatten(x.Type())) == 2 {
+			v = st.makeInterface(v, x.Type())
+		}
 		v.T = x.Type()
 		fr.env[x] = v
 	case *ssa.ChangeInterface:
 		v := st.val(fr, x.X)
+		if len(v.C) == 1 {
+			v = st.makeInterface(v, x.Type())
+		}
 		v.T = x.Type()
 		fr.env[x] = v
 	case *ssa.MakeInterface:
@@ -247,6 +253,7 @@ func (st *State) exec(fr *Frame, in ssa.Instruction) bool {
 		st.funcs[id] = fv
 		fr.env[x] = Val{T: x.Type(), C: []string{id}, F: fv}
 	case *ssa.MapUpdate:
+		st.guardMapAccess(fr, st.val(fr, x.Map), true, x.Pos())
 		st.mapUpdate(st.val(fr, x.Map), st.val(fr, x.Key), st.val(fr, x.Value), x.Pos())
 	case *ssa.Range:
 		st.execRange(fr, x)
@@ -469,6 +476,9 @@ func (st *State) binop(op token.Token, a, b Val, rt types.Type, pos token.Pos) V
 		return out(wrapIfNeeded(rt, fmt.Sprintf("(godiv %s %s)", x, y), x, y))
 	case token.REM:
 		st.oblige("safety", "div-zero", e.curProps, not(eq(y, "0")), pos)
+		if _, signed, ok := bitsOf(rt); ok && !signed {
+			return out(fmt.Sprintf("(mod %s %s)", x, y))
+		}
 		return out(fmt.Sprintf("(gomod %s %s)", x, y))
 	case token.LSS:
 		return out(fmt.Sprintf("(< %s %s)", x, y))
@@ -549,7 +559,9 @@ func (st *State) unop(fr *Frame, x *ssa.UnOp) Val {
 		}
 		p := st.asPtr(st.val(fr, x.X))
 		st.guardAccess(fr, p, false, x.Pos())
-		return st.loadPtr(p, x.Pos())
+		lv := st.loadPtr(p, x.Pos())
+		st.noteMapOwner(p, lv)
+		return lv
 	case token.NOT:
 		return Val{T: x.Type(), C: []string{not(st.val(fr, x.X).C[0])}}
 	case token.SUB:
